@@ -467,6 +467,9 @@ func runJust(k *kernel.K) {
 		shape = append(shape, qIx) // Y
 		if k.Bool(1, 2, "merge-deeper") {
 			shape = append(shape, pIx+2) // a child below the first child of P
+			if k.Bool(1, 2, "merge-deeper-second-child") {
+				shape = append(shape, pIx+2) // and a sibling of it: two forks on top of each other below B
+			}
 		}
 		nb = len(shape) + 1
 		s.mergeB, s.mergeP = b, pIx
